@@ -715,12 +715,17 @@ func (w *world) collect() {
 
 // ---------------------------------------------------------------- operations
 
+// idxOf: which of the queued messages with the operation's key is meant (1 = the oldest)
+func idxOf(op map[string]interface{}) int {
+	if idx := kit.Int(op, "idx"); idx > 0 {
+		return idx
+	}
+	return 1
+}
+
 func (w *world) findHeld(op map[string]interface{}) (int, bool) {
 	k, f, t, tg, rq := kit.Str(op, "k"), kit.Str(op, "f"), kit.Str(op, "t"), kit.Str(op, "tg"), kit.Str(op, "rq")
-	idx := kit.Int(op, "idx")
-	if idx <= 0 {
-		idx = 1
-	}
+	idx := idxOf(op)
 	c := 0
 	for _, h := range w.viewHeld() {
 		r := h.rec
@@ -800,8 +805,9 @@ func (w *world) run(sc kit.Scenario) (evs []kit.Ev, err error) {
 						own += b
 					}
 				}
-				if kit.Str(op, "k") == "presp" && !whasq {
-					// the FindChunkInfo loop may go round at once (a tick already buffered): the queue may exist already
+				if !whasq && atomic.LoadInt32(&x.init) == 1 {
+					// the FindChunkInfo loop of a running Init may go round on its own (1 s ticker; at once if a tick
+					// was already buffered): the queue may exist earlier than the scenario says
 					return d.Pyramid == wpyr && own == wown && d.DiscoverKey == wdkey
 				}
 				return d.Pyramid == wpyr && own == wown && d.DiscoverKey == wdkey && (d.Queue != nil) == whasq
@@ -822,6 +828,7 @@ func (w *world) run(sc kit.Scenario) (evs []kit.Ev, err error) {
 			// the FindChunkInfo loop of n comes round (1 s ticker): nothing to do but wait for its effect
 			ev["late"] = w.settle(hm, retn, 4*time.Second)
 		case "deliver", "dup", "park":
+			ev["idx"] = idxOf(op)
 			id, ok := w.findHeld(op)
 			if !ok {
 				ev["found"] = false
@@ -859,6 +866,7 @@ func (w *world) run(sc kit.Scenario) (evs []kit.Ev, err error) {
 				ev["late"] = true
 			}
 		case "drop":
+			ev["idx"] = idxOf(op)
 			id, ok := w.findHeld(op)
 			if !ok {
 				ev["found"] = false
